@@ -36,18 +36,34 @@ package drummer
 //   T                                               Drummer.tick()
 //   Q <n> <request tokens>*                         Drummer.updateRequests()
 //   CTX                                             server.getSchedulerContext()
+//   GB                                              server.getBootstrapped(): linearizable read of the bootstrapped flag of the DB
 //   RESTART | KILL                                  stop the child (NodeHost.Close / SIGKILL), start a new one on the same dir
 //   END
+// Prefixes of a call line (in this order, both optional):
+//   @2                    the call goes through a SECOND server object on the same NodeHost (another front-end of the same DB)
+//   F <kind> <arg>        fault injection for this one call:
+//        c 0              the client's context is already cancelled
+//        d <microsec>     the client's context expires <microsec> after the call started
+//        t <millisec>     the soft setting behind raftOpTimeoutMillisecond (allowance of one proposal / lookup inside the
+//                         call) is <millisec> during this call: 1 = below one RTT (refused before it is submitted),
+//                         2.. = may time out in flight (the proposal may or may not be applied)
+//      The error of a faulted call is reported as "err ..." (never as infrastructure); after a faulted call the executor
+//      waits until everything the call may have left in flight is settled (a session round trip through the same queue).
+// Before the first CASE:  STR <id> <hex>   string table: token <id> in a string position (application name, region name,
+//   report region / RPC address) stands for the bytes <hex>, whatever the prefix; everything else is vStr(prefix, id).
+// All answers are printed in ASCII (\uXXXX escapes inside JSON strings), JSON without insignificant white space.
 // Output (VERIF_OUT): "PARAMS ttl step ldt" then per case "CASE <name>", one line
 // "<opindex> <answer>" per executed op, "ENDCASE ok|infra <msg>".
-// Answers: "ok code N" | "ok did N" | "ok pb JSON" | "ok json JSON" | "ok v N" |
+// Answers: "ok code N" | "ok did N" | "ok pb JSON" | "ok json JSON" | "ok v N" | "ok bool N" |
 //   "err <grpc code> <text>" | "hpanic <text>" | "DIED <panic text>" |
 //   "restarted alive" | "restarted died <text>"
 // After DIED on a dir case one more line "<opindex> AGAIN alive|died <text>".
 
 import (
 	"bufio"
+	"bytes"
 	"context"
+	"encoding/hex"
 	"encoding/json"
 	"errors"
 	"fmt"
@@ -68,6 +84,7 @@ import (
 	chantrans "github.com/lni/dragonboat/v4/plugin/chan"
 	"github.com/lni/vfs"
 	"google.golang.org/grpc/status"
+	"google.golang.org/protobuf/encoding/protojson"
 	"google.golang.org/protobuf/proto"
 
 	pb "github.com/lni/drummer/v3/drummerpb"
@@ -149,8 +166,82 @@ func vsNewNodeHost(dir string) (*dragonboat.NodeHost, error) {
 	return nh, nil
 }
 
+// string table (STR lines): token -> literal string
+var vsStrTab = map[uint64]string{}
+var vsStrLines []string
+
+func vsSetStr(f []string) {
+	if len(f) < 2 {
+		return
+	}
+	id, err := strconv.ParseUint(f[1], 10, 64)
+	if err != nil {
+		return
+	}
+	lit := ""
+	if len(f) > 2 {
+		b, err := hex.DecodeString(f[2])
+		if err != nil {
+			return
+		}
+		lit = string(b)
+	}
+	vsStrTab[id] = lit
+}
+
+func vsStr(prefix string, n uint64) string {
+	if s, ok := vsStrTab[n]; ok {
+		return s
+	}
+	return vStr(prefix, n)
+}
+
+// vsASCII makes a line printable ASCII: inside JSON strings non-ASCII runes become \uXXXX escapes, which is still the same JSON
+func vsASCII(s string) string {
+	plain := true
+	for i := 0; i < len(s); i++ {
+		if s[i] < 0x20 || s[i] >= 0x7f {
+			plain = false
+			break
+		}
+	}
+	if plain {
+		return s
+	}
+	var b strings.Builder
+	for _, r := range s {
+		switch {
+		case r >= 0x20 && r < 0x7f:
+			b.WriteRune(r)
+		case r < 0x10000:
+			fmt.Fprintf(&b, "\\u%04x", r)
+		default:
+			r -= 0x10000
+			fmt.Fprintf(&b, "\\u%04x\\u%04x", 0xd800+(r>>10), 0xdc00+(r&0x3ff))
+		}
+	}
+	return b.String()
+}
+
+// vsJSON: protojson without insignificant white space (white space INSIDE strings is kept, unlike vJSON)
+func vsJSON(m proto.Message) string {
+	b, err := protojson.MarshalOptions{EmitUnpopulated: true}.Marshal(m)
+	if err != nil {
+		return "{}"
+	}
+	var out bytes.Buffer
+	if err := json.Compact(&out, b); err != nil {
+		return "{}"
+	}
+	return out.String()
+}
+
+func vsErrText(err error) string {
+	return strings.ReplaceAll(strings.ReplaceAll(err.Error(), " ", "_"), "\n", "_")
+}
+
 func vsErrLine(err error) string {
-	msg := strings.ReplaceAll(strings.ReplaceAll(err.Error(), " ", "_"), "\n", "_")
+	msg := vsErrText(err)
 	if vsInfra(err) {
 		return "infra " + msg
 	}
@@ -158,21 +249,80 @@ func vsErrLine(err error) string {
 }
 
 type vsChild struct {
-	nh  *dragonboat.NodeHost
-	srv *server
-	rnd *vsRand
-	dr  *Drummer
+	nh   *dragonboat.NodeHost
+	srv  *server // the server object the Drummer itself uses
+	srv2 *server // a second front-end of the same DB
+	cur  *server // the one serving the current call
+	rnd  *vsRand
+	dr   *Drummer
 }
 
 func (c *vsChild) ctx() (context.Context, context.CancelFunc) {
 	return context.WithTimeout(context.Background(), 20*time.Second)
 }
 
+// settle: whatever an abandoned call left in flight has been applied or dropped when a later proposal through the same
+// queue (a client session registration + its removal; neither touches the DB) has completed
+func (c *vsChild) settle() {
+	for i := 0; i < 50; i++ {
+		ctx, cancel := c.ctx()
+		s, err := c.nh.SyncGetSession(ctx, defaultShardID)
+		if err == nil {
+			err = c.nh.SyncCloseSession(ctx, s)
+		}
+		cancel()
+		if err == nil {
+			return
+		}
+		time.Sleep(5 * time.Millisecond)
+	}
+}
+
+// call: one line = optional "@2", optional "F kind arg", then the op
+func (c *vsChild) call(f []string) string {
+	c.cur = c.srv
+	if len(f) > 1 && f[0] == "@2" {
+		c.cur = c.srv2
+		f = f[1:]
+	}
+	if len(f) > 3 && f[0] == "F" {
+		kind := f[1]
+		arg, _ := strconv.ParseUint(f[2], 10, 64)
+		f = f[3:]
+		var ctx context.Context
+		var cancel context.CancelFunc
+		saved := raftOpTimeoutMillisecond
+		switch kind {
+		case "c":
+			ctx, cancel = c.ctx()
+			cancel()
+		case "d":
+			ctx, cancel = context.WithTimeout(context.Background(), time.Duration(arg)*time.Microsecond)
+		case "t":
+			ctx, cancel = c.ctx()
+			raftOpTimeoutMillisecond = arg
+		default:
+			return "hpanic unknown_fault_" + kind
+		}
+		ans := c.exec(f, ctx)
+		cancel()
+		raftOpTimeoutMillisecond = saved
+		c.settle()
+		if strings.HasPrefix(ans, "infra ") {
+			ans = "err 2 " + ans[6:]
+		}
+		return ans
+	}
+	ctx, cancel := c.ctx()
+	defer cancel()
+	return c.exec(f, ctx)
+}
+
 func (c *vsChild) pbAnswer(m proto.Message, err error) string {
 	if err != nil {
 		return vsErrLine(err)
 	}
-	return "ok pb " + vJSON(m)
+	return "ok pb " + vsJSON(m)
 }
 
 func (c *vsChild) changeAnswer(r *pb.ChangeResponse, err error) string {
@@ -182,47 +332,46 @@ func (c *vsChild) changeAnswer(r *pb.ChangeResponse, err error) string {
 	return fmt.Sprintf("ok code %d", int32(r.Code))
 }
 
-func (c *vsChild) exec(f []string) (ans string) {
+func (c *vsChild) exec(f []string, ctx context.Context) (ans string) {
 	defer func() {
 		if r := recover(); r != nil {
-			ans = "hpanic " + strings.ReplaceAll(fmt.Sprint(r), " ", "_")
+			ans = "hpanic " + strings.ReplaceAll(strings.ReplaceAll(fmt.Sprint(r), " ", "_"), "\n", "_")
 		}
 	}()
 	tk := &vToks{f: f, i: 1}
-	ctx, cancel := c.ctx()
-	defer cancel()
+	srv := c.cur
 	switch f[0] {
 	case "SC":
 		ch := &pb.Change{}
 		ch.Type = pb.Change_Type(tk.u())
 		ch.ShardId = tk.u()
-		ch.AppName = vStr("app", tk.u())
+		ch.AppName = vsStr("app", tk.u())
 		for n := tk.u(); n > 0; n-- {
 			ch.Members = append(ch.Members, tk.u())
 		}
-		return c.changeAnswer(c.srv.SubmitChange(ctx, ch))
+		return c.changeAnswer(srv.SubmitChange(ctx, ch))
 	case "SCNIL":
-		return c.changeAnswer(c.srv.SubmitChange(ctx, nil))
+		return c.changeAnswer(srv.SubmitChange(ctx, nil))
 	case "SR":
 		r := &pb.Regions{}
 		for n := tk.u(); n > 0; n-- {
-			r.Region = append(r.Region, vStr("g", tk.u()))
+			r.Region = append(r.Region, vsStr("g", tk.u()))
 		}
 		for n := tk.u(); n > 0; n-- {
 			r.Count = append(r.Count, tk.u())
 		}
-		return c.changeAnswer(c.srv.SetRegions(ctx, r))
+		return c.changeAnswer(srv.SetRegions(ctx, r))
 	case "SRNIL":
-		return c.changeAnswer(c.srv.SetRegions(ctx, nil))
+		return c.changeAnswer(srv.SetRegions(ctx, nil))
 	case "SB":
-		return c.changeAnswer(c.srv.SetBootstrapped(ctx, &pb.Empty{}))
+		return c.changeAnswer(srv.SetBootstrapped(ctx, &pb.Empty{}))
 	case "SD":
 		c.rnd.next = tk.u()
-		session, err := c.srv.getSession(ctx, defaultShardID)
+		session, err := srv.getSession(ctx, defaultShardID)
 		if err != nil {
 			return vsErrLine(err)
 		}
-		did, err := c.srv.setDeploymentID(ctx, session)
+		did, err := srv.setDeploymentID(ctx, session)
 		cc, ccancel := c.ctx()
 		_ = c.nh.SyncCloseSession(cc, session)
 		ccancel()
@@ -251,12 +400,12 @@ func (c *vsChild) exec(f []string) (ans string) {
 			_ = c.nh.SyncCloseSession(cc2, s2)
 			ccancel2()
 		}
-		session, err := c.srv.getSession(ctx, defaultShardID)
+		session, err := srv.getSession(ctx, defaultShardID)
 		if err != nil {
 			c.rnd.hook = nil
 			return vsErrLine(err)
 		}
-		ra, err := c.srv.setDeploymentID(ctx, session)
+		ra, err := srv.setDeploymentID(ctx, session)
 		hookRan := c.rnd.hook == nil
 		c.rnd.hook = nil
 		cc, ccancel := c.ctx()
@@ -274,25 +423,43 @@ func (c *vsChild) exec(f []string) (ans string) {
 		}
 		return fmt.Sprintf("ok did2 %d %d", ra, rb)
 	case "RP":
-		return c.pbAnswer(c.srv.ReportAvailableNodeHost(ctx, vParseReport(tk)))
+		nhi := vParseReport(tk)
+		for id, lit := range vsStrTab { // string-table tokens in the string positions of a report
+			if nhi.Region == vStr("g", id) {
+				nhi.Region = lit
+			}
+			if nhi.RPCAddress == vStr("p", id) {
+				nhi.RPCAddress = lit
+			}
+		}
+		return c.pbAnswer(srv.ReportAvailableNodeHost(ctx, nhi))
 	case "GS":
-		return c.pbAnswer(c.srv.GetShards(ctx, &pb.Empty{}))
+		return c.pbAnswer(srv.GetShards(ctx, &pb.Empty{}))
 	case "GN":
-		return c.pbAnswer(c.srv.GetNodeHostCollection(ctx, &pb.Empty{}))
+		return c.pbAnswer(srv.GetNodeHostCollection(ctx, &pb.Empty{}))
 	case "GT":
 		q := &pb.ShardStateRequest{}
 		for n := tk.u(); n > 0; n-- {
 			q.ShardIdList = append(q.ShardIdList, tk.u())
 		}
-		return c.pbAnswer(c.srv.GetShardStates(ctx, q))
+		return c.pbAnswer(srv.GetShardStates(ctx, q))
 	case "GL":
-		return c.pbAnswer(c.srv.GetShardConfigChangeIndexList(ctx, &pb.Empty{}))
+		return c.pbAnswer(srv.GetShardConfigChangeIndexList(ctx, &pb.Empty{}))
 	case "GD":
-		r, err := c.srv.GetDeploymentInfo(ctx, &pb.Empty{})
+		r, err := srv.GetDeploymentInfo(ctx, &pb.Empty{})
 		if err != nil {
 			return vsErrLine(err)
 		}
 		return fmt.Sprintf("ok did %d", r.DeploymentId)
+	case "GB":
+		b, err := srv.getBootstrapped(ctx)
+		if err != nil {
+			return vsErrLine(err)
+		}
+		if b {
+			return "ok bool 1"
+		}
+		return "ok bool 0"
 	case "T":
 		v, err := c.dr.tick()
 		if err != nil {
@@ -310,7 +477,7 @@ func (c *vsChild) exec(f []string) (ans string) {
 		}
 		return fmt.Sprintf("ok v %d", v)
 	case "CTX":
-		sc, err := c.srv.getSchedulerContext(ctx)
+		sc, err := srv.getSchedulerContext(ctx)
 		if err != nil {
 			return vsErrLine(err)
 		}
@@ -318,7 +485,7 @@ func (c *vsChild) exec(f []string) (ans string) {
 		if err != nil {
 			return "hpanic json_" + err.Error()
 		}
-		return "ok json " + strings.ReplaceAll(strings.ReplaceAll(string(data), "\n", ""), " ", "")
+		return "ok json " + string(data) // json.Marshal: compact, control characters escaped
 	}
 	return "hpanic unknown_op_" + f[0]
 }
@@ -328,7 +495,7 @@ func vsChildMain() {
 	out := os.NewFile(4, "verif-out")
 	w := bufio.NewWriter(out)
 	say := func(s string) {
-		fmt.Fprintln(w, s)
+		fmt.Fprintln(w, vsASCII(s))
 		w.Flush()
 	}
 	for _, n := range []string{"raft", "rsm", "transport", "dragonboat", "logdb", "raftpb", "config", "settings",
@@ -342,6 +509,7 @@ func vsChildMain() {
 	}
 	c := &vsChild{nh: nh, rnd: &vsRand{next: 1}}
 	c.srv = newDrummerServer(nh, c.rnd)
+	c.srv2 = newDrummerServer(nh, c.rnd)
 	c.dr = &Drummer{nh: nh, server: c.srv, sessionUser: &sessionUser{nh: nh}, ctx: context.Background()}
 	// wait until the shard answers linearizable reads (idempotent, retried)
 	ready := false
@@ -372,7 +540,11 @@ func vsChildMain() {
 			say("BYE")
 			return
 		}
-		say(c.exec(f))
+		if f[0] == "STR" { // string table entry, not answered
+			vsSetStr(f)
+			continue
+		}
+		say(c.call(f))
 	}
 }
 
@@ -511,6 +683,9 @@ func vsRunCase(c *vsCase, scratch string) (lines []string) {
 			p.kill()
 			return nil, "child: " + l
 		}
+		for _, sl := range vsStrLines {
+			_, _ = fmt.Fprintln(p.toChild, sl)
+		}
 		return p, ""
 	}
 	p, msg := start()
@@ -588,6 +763,10 @@ func vsParse(path string) ([]*vsCase, error) {
 		}
 		fs := strings.Fields(t)
 		switch fs[0] {
+		case "STR":
+			if cur == nil {
+				vsStrLines = append(vsStrLines, t)
+			}
 		case "CASE":
 			cur = &vsCase{name: fs[1], dir: len(fs) > 2 && fs[2] == "dir"}
 		case "END":
